@@ -141,8 +141,12 @@ theorem requestStatus_rk (req) : Rel rkPre (requestStatus req) := by
   unfold requestStatus
   rk_walk []
 
-theorem completedRetryDecision_rk (k idx ts ns ev) : Rel rkPre (completedRetryDecision E k idx ts ns ev) := by
+theorem failOnError_rk : Rel rkPre failOnError := by
+  unfold failOnError
+  rk_walk [requestStatus_rk _]
+
+theorem completedRetryDecision_rk (k idx ts os ns ev) : Rel rkPre (completedRetryDecision E k idx ts os ns ev) := by
   unfold completedRetryDecision
-  rk_walk [Rel.sq_rk (makeTaskContext_sq _ _ _), requestStatus_rk _]
+  rk_walk [Rel.sq_rk (makeTaskContext_sq _ _ _), requestStatus_rk _, failOnError_rk]
 
 end Orq
